@@ -125,6 +125,14 @@ var schemas = map[string][]field{
 	// the RIB's orchestration (rib/rib.go)
 	"pendingEntry": {{"ni", "ni", kStr}, {"op", "op", kPtrNN("AFTOperationC")}},
 	"KeyRIB":  {},
+	// the reconciler: both element schemas are the Lean structure ReconEnt, keyed by its string or its number
+	"ReconEntS": {{"Key", "KeyS", kStr}, {"Body", "Body", kNat}},
+	"ReconEntN": {{"Key", "KeyN", kNat}, {"Body", "Body", kNat}},
+	"ReconAfts": {{"Ipv4Entry", "Ipv4Entry", kind{k: "list", s: "ReconEntS", elemNN: true, keyed: true}}, {"Ipv6Entry", "Ipv6Entry", kind{k: "list", s: "ReconEntS", elemNN: true, keyed: true}},
+		{"LabelEntry", "LabelEntry", kind{k: "list", s: "ReconEntN", elemNN: true, keyed: true}}, {"NextHopGroup", "NextHopGroup", kind{k: "list", s: "ReconEntN", elemNN: true, keyed: true}},
+		{"NextHop", "NextHop", kind{k: "list", s: "ReconEntN", elemNN: true, keyed: true}}},
+	"ReconNI": {{"Afts", "Afts", kPtrNN("ReconAfts")}},
+	"ReconOp": {{"Id", "Id", kNat}, {"NetworkInstance", "NetworkInstance", kStr}, {"Op", "Op", kEnum}, {"Kind", "Kind", kNat}, {"Entry", "Entry", kPtr("ReconEntS")}},
 	"TblEntry": {{"NextHop", "NextHop", kind{k: "list", s: "OrigNHGMember", elemNN: true, keyed: true}}},
 	"NewElem": {{"Key", "Key", kNat}},
 	"NewAfts": {{"Ipv4Entry", "Ipv4Entry", kind{k: "list", s: "NewElem", elemNN: true, keyed: true}}, {"Ipv6Entry", "Ipv6Entry", kind{k: "list", s: "NewElem", elemNN: true, keyed: true}},
@@ -162,7 +170,7 @@ var leanStruct = map[string]string{
 	"IPv4EntryC": "IPv4EntryC", "IPv6EntryC": "IPv6EntryC", "LabelEntryC": "LabelEntryC", "NHGEntryC": "NHGEntryC", "NHEntryC": "NHEntryC", "AFTOperationC": "AFTOperationC", "ModifyRequestC": "ModifyRequestC",
 	"AFTErrorDetails": "AFTErrorDetails", "AFTResultC": "AFTResultC", "SessionParametersResult": "SessionParametersResult", "ModifyResponseC": "ModifyResponseC", "PendingOp": "PendingOp",
 	"ElectionReqDetails": "ElectionReqDetails", "SessionParamReqDetails": "SessionParamReqDetails", "OpDetailsResults": "OpDetailsResults", "COpResult": "COpResult",
-	"AFTResultList": "(List AFTResultC)", "Bool": "Bool", "pendingQueue": "PendingQueue", "pendingEntry": "PendingEntry", "RibOpResult": "RibOpResult", "OrigTop": "OrigTop", "OrigNHGMember": "OrigNHGMember", "OrigNHG": "OrigNHG", "KeyRIB": "KeyRIB", "TblEntry": "TblEntry", "NewElem": "NewElem", "NewAfts": "NewAfts", "NewRIB": "NewRIB", "StringValue": "StringValue", "UintValue": "UintValue", "NewTop": "NewTop", "NewNHGMember": "NewNHGMember", "NewNHG": "NewNHG",
+	"AFTResultList": "(List AFTResultC)", "Bool": "Bool", "pendingQueue": "PendingQueue", "pendingEntry": "PendingEntry", "RibOpResult": "RibOpResult", "OrigTop": "OrigTop", "OrigNHGMember": "OrigNHGMember", "OrigNHG": "OrigNHG", "KeyRIB": "KeyRIB", "ReconEntS": "ReconEnt", "ReconEntN": "ReconEnt", "ReconAfts": "ReconAfts", "ReconNI": "ReconNI", "ReconOp": "ReconOp", "TblEntry": "TblEntry", "NewElem": "NewElem", "NewAfts": "NewAfts", "NewRIB": "NewRIB", "StringValue": "StringValue", "UintValue": "UintValue", "NewTop": "NewTop", "NewNHGMember": "NewNHGMember", "NewNHG": "NewNHG",
 }
 
 func leanType(k kind) string {
@@ -191,6 +199,9 @@ func leanType(k kind) string {
 	case "fresp":
 		return "Option FlushResult"
 	case "set":
+		if k.s == "String" {
+			return "List String"
+		}
 		return "List Nat"
 	case "any":
 		return "AnyKey"
@@ -695,9 +706,21 @@ func trExpr(e ast.Expr, en env) val {
 				}
 			}
 		}
-		if mt, ok := v.Type.(*ast.MapType); ok && render(mt.Value) == "bool" && len(v.Elts) == 0 {
-			// map[K]bool used as a set of enumeration values / numbers
-			return val{lean: "[]", kd: kind{k: "set"}}
+		if mt, ok := v.Type.(*ast.MapType); ok && render(mt.Value) == "bool" {
+			// map[K]bool used as a set of enumeration values / numbers / strings (every value true)
+			sk := kind{k: "set"}
+			if render(mt.Key) == "string" {
+				sk.s = "String"
+			}
+			var els []string
+			for _, el := range v.Elts {
+				kv, ok := el.(*ast.KeyValueExpr)
+				if !ok || render(kv.Value) != "true" {
+					fail(el.Pos(), "element of a set literal")
+				}
+				els = append(els, trExpr(kv.Key, en).lean)
+			}
+			return val{lean: "[" + strings.Join(els, ", ") + "]", kd: sk}
 		}
 		if at, ok := v.Type.(*ast.ArrayType); ok && render(at.Elt) == "string" {
 			var els []string
@@ -744,6 +767,12 @@ func trExpr(e ast.Expr, en env) val {
 		if m.kd.k == "set" {
 			k := trExpr(v.Index, en)
 			return val{lean: "(" + atom(m.lean) + ".contains " + atom(k.lean) + ")", kd: kBool}
+		}
+		if m.kd.k == "list" && m.kd.keyed {
+			// a ygot map represented as the list of its elements: the element with that key, if any
+			k := trExpr(v.Index, en)
+			kf := fieldOf(m.kd.s, "Key", v.Pos())
+			return val{lean: "(" + atom(m.lean) + ".find? (fun x => decide (x." + kf.lean + " = " + atom(k.lean) + ")))", kd: kPtr(m.kd.s), path: render(v)}
 		}
 		if m.kd.k != "map" {
 			fail(v.Pos(), "index of %s", m.kd)
@@ -1042,6 +1071,25 @@ func assignedOuter(list []ast.Stmt) []string {
 
 var loopConts []cont
 var curRetTypes []string
+
+// value loops (see trLoopV): inside the body of one, the "result" of the enclosing code is
+// Sum (function result) (loop state); resTypeStack holds those types, innermost last
+var resTypeStack []string
+
+func currentResultType() string {
+	if n := len(resTypeStack); n > 0 {
+		return resTypeStack[n-1]
+	}
+	return strings.Join(curRetTypes, " × ")
+}
+
+// wrapResult: a function result produced inside a value loop leaves the loop as Sum.inl
+func wrapResult(s string) string {
+	if len(resTypeStack) > 0 {
+		return "(Sum.inl " + atom(s) + ")"
+	}
+	return s
+}
 var loopIndex int
 
 // needsGeneralLoop: the body returns, continues, or updates something other than one accumulator
@@ -1076,6 +1124,11 @@ func needsGeneralLoop(list []ast.Stmt) bool {
 					case *ast.SelectorExpr, *ast.IndexExpr, *ast.StarExpr:
 						general = true
 					}
+				}
+			}
+			if ce, ok := n.(*ast.CallExpr); ok && cur != nil {
+				if sel, ok := ce.Fun.(*ast.SelectorExpr); ok && sel.Sel.Name == "Add" && len(ce.Args) == 1 && cur.isState(render(sel.X)) {
+					general = true
 				}
 			}
 			if ce, ok := n.(*ast.CallExpr); ok && cur != nil && cur.tbFatal {
@@ -1120,6 +1173,12 @@ func loopState(list []ast.Stmt, en env) []string {
 			if ce, ok := n.(*ast.CallExpr); ok && render(ce.Fun) == "delete" && len(ce.Args) == 2 {
 				add(render(ce.Args[0]))
 			}
+			if ce, ok := n.(*ast.CallExpr); ok && cur != nil {
+				// x.Add(n) on a counter held in the state
+				if sel, ok := ce.Fun.(*ast.SelectorExpr); ok && sel.Sel.Name == "Add" && len(ce.Args) == 1 && cur.isState(render(sel.X)) {
+					add(render(sel.X))
+				}
+			}
 			for _, l := range lhs {
 				switch lv := l.(type) {
 				case *ast.Ident:
@@ -1151,6 +1210,18 @@ func trLoop(v *ast.RangeStmt, en env, next cont) string {
 	}
 	l := rangeSubject(v.X, en)
 	en = absorb(en)
+	if l.kd.k == "set" {
+		// for k := range set: the keys, in an arbitrary order
+		if v.Value != nil {
+			fail(v.Pos(), "range over a set with a value variable")
+		}
+		es := "Nat"
+		if l.kd.s == "String" {
+			es = "String"
+		}
+		l = val{lean: l.lean, kd: kind{k: "list", s: es, elemNN: true}}
+		v = &ast.RangeStmt{For: v.For, Key: &ast.Ident{Name: "_"}, Value: v.Key, Tok: v.Tok, X: v.X, Body: v.Body}
+	}
 	isMap := l.kd.k == "map"
 	mapKeyKind := mapKey(l.kd)
 	if isMap {
@@ -1252,6 +1323,8 @@ func trLoop(v *ast.RangeStmt, en env, next cont) string {
 		}
 	} else if l.kd.s == "Bool" {
 		inner.declare(xv.Name, val{lean: xn, kd: kBool})
+	} else if l.kd.s == "Nat" {
+		inner.declare(xv.Name, val{lean: xn, kd: kNat})
 	} else if l.kd.s != "String" {
 		inner.declare(xv.Name, val{lean: xn, kd: elemKind, path: fresh("path")})
 		if l.kd.elemNN {
@@ -1292,7 +1365,10 @@ func trLoop(v *ast.RangeStmt, en env, next cont) string {
 	body := trStmts(v.Body.List, inner, func(e env) string { return recur(e.pop()) })
 	loopConts = loopConts[:len(loopConts)-1]
 	elemT := leanStruct[l.kd.s]
-	if !l.kd.elemNN && l.kd.s != "String" && l.kd.s != "Bool" {
+	if l.kd.s == "Nat" {
+		elemT = "Nat"
+	}
+	if !l.kd.elemNN && l.kd.s != "String" && l.kd.s != "Bool" && l.kd.s != "Nat" {
 		elemT = "Option " + elemT
 	}
 	if isMap {
@@ -1312,6 +1388,244 @@ func trLoop(v *ast.RangeStmt, en env, next cont) string {
 	def := fmt.Sprintf("let rec %s : %s := fun %s %s => (match %s%s with\n| []%s => %s\n| %s :: %s%s => %s)", goName, sig, lv, strings.Join(binders, " "), lv, cpats, cpats, base, xn, rest, cpats, body)
 	return wrapLets(lets, "("+def+";\n"+goName+" "+atom(l.lean)+" "+strings.Join(inits, " ")+")")
 }
+
+// trLoopV: the same loop as a function that *returns*: Sum.inl r when the body executed a `return`
+// (r is the function's result), Sum.inr (state) when the list is exhausted; the code after the
+// loop then matches on it. Unlike trLoop the code after the loop is not inside the recursive
+// function, so a loop nested in another loop can fall back into the outer one without making the
+// two mutually recursive.
+func trLoopV(v *ast.RangeStmt, en env, next cont) string {
+	if v.Tok != token.DEFINE {
+		fail(v.Pos(), "range form")
+	}
+	l := rangeSubject(v.X, en)
+	en = absorb(en)
+	if l.kd.k == "set" {
+		// for k := range set: the keys, in an arbitrary order
+		if v.Value != nil {
+			fail(v.Pos(), "range over a set with a value variable")
+		}
+		es := "Nat"
+		if l.kd.s == "String" {
+			es = "String"
+		}
+		l = val{lean: l.lean, kd: kind{k: "list", s: es, elemNN: true}}
+		v = &ast.RangeStmt{For: v.For, Key: &ast.Ident{Name: "_"}, Value: v.Key, Tok: v.Tok, X: v.X, Body: v.Body}
+	}
+	isMap := l.kd.k == "map"
+	mapKeyKind := mapKey(l.kd)
+	if isMap {
+		// a Go map of structs: a list of (key, value) pairs in an arbitrary order
+		l = val{lean: l.lean, kd: kind{k: "list", s: l.kd.s, keyed: true, elemNN: true}}
+	}
+	if l.kd.k != "list" {
+		fail(v.Pos(), "range over %s", l.kd)
+	}
+	// `for k := range m` / `for k, v := range m` over a map that is represented as a list of
+	// elements carrying their key in a field Key (any order: the theorems quantify over the list)
+	keyName := ""
+	if k, ok := v.Key.(*ast.Ident); ok && k.Name != "_" {
+		if !l.kd.keyed {
+			fail(v.Pos(), "range with an index variable over a list that is not a keyed map")
+		}
+		keyName = k.Name
+	}
+	xv := &ast.Ident{Name: "elem"}
+	if v.Value != nil {
+		xv = v.Value.(*ast.Ident)
+	}
+	state := loopState(v.Body.List, en)
+	lets := takeLets()
+	// the current values of the state (a local struct with assigned fields is passed as one value)
+	var inits, binders, types []string
+	e0 := en.clone()
+	for _, k := range state {
+		x := materialise(e0.vars[k], e0, v.Pos())
+		lets = append(lets, takeLets()...)
+		e0.vars[k] = x
+		inits = append(inits, atom(x.lean))
+		types = append(types, leanType(x.kd))
+		binders = append(binders, fresh(lastName(k)))
+	}
+	effName := ""
+	if cur != nil && cur.effects {
+		// the effects recorded so far travel through the loop as one more argument
+		effName = fresh("effs")
+		inits = append(inits, atom(effsExpr(e0)))
+		types = append(types, "List Eff")
+		binders = append(binders, effName)
+	}
+	loopIndex++
+	goName := fmt.Sprintf("loop%d", loopIndex)
+	rest := fresh("rest")
+	xn := fresh(xv.Name)
+	bindState := func(e env) env {
+		e = e.clone()
+		for i, k := range state {
+			x := e0.vars[k]
+			nv := val{lean: binders[i], kd: x.kd, path: fresh("path")}
+			if x.kd.k == "ptr" && !x.kd.nn {
+				// a pointer to a local struct stays non-nil; it is matched below
+				nv.path = x.path
+			}
+			e.vars[k] = nv
+		}
+		return e
+	}
+	// pointers to local structs are passed as their (non-nil) struct value
+	for i, k := range state {
+		x := e0.vars[k]
+		if x.kd.k == "ptr" && !x.kd.nn {
+			b, ok := e0.bound[x.path]
+			if !ok {
+				fail(v.Pos(), "loop state %s is a pointer that may be nil", k)
+			}
+			inits[i] = atom(b)
+			types[i] = leanStruct[x.kd.s]
+		}
+	}
+	rebind := func(e env) env {
+		e = bindState(e)
+		if effName != "" {
+			e.effBase, e.effects = effName, nil
+		}
+		for i, k := range state {
+			x := e0.vars[k]
+			if x.kd.k == "ptr" && !x.kd.nn {
+				p := fresh("path")
+				e.bound[p] = binders[i]
+				e.vars[k] = val{lean: "(some " + binders[i] + ")", kd: x.kd, path: p}
+			}
+		}
+		return e
+	}
+	stateT := "Unit"
+	if len(types) > 0 {
+		var ts []string
+		for _, t := range types {
+			ts = append(ts, atom2(t))
+		}
+		stateT = strings.Join(ts, " × ")
+	}
+	// the payload of Sum.inl is always the function's own result, whatever the nesting
+	outerRes := strings.Join(curRetTypes, " × ")
+	retType := "Sum " + atom2(outerRes) + " " + atom2(stateT)
+	stateTuple := "()"
+	if len(binders) > 0 {
+		stateTuple = "(" + strings.Join(binders, ", ") + ")"
+	}
+	base := "(Sum.inr " + stateTuple + ")"
+	resTypeStack = append(resTypeStack, retType)
+	inner := rebind(e0).push()
+	elemKind := kPtr(l.kd.s)
+	if isMap {
+		pv := fresh("path")
+		inner.bound[pv] = xn + ".2"
+		inner.declare(xv.Name, val{lean: "(some " + xn + ".2)", kd: elemKind, path: pv})
+		if keyName != "" {
+			inner.declare(keyName, val{lean: xn + ".1", kd: mapKeyKind})
+			keyName = ""
+		}
+	} else if l.kd.s == "Bool" {
+		inner.declare(xv.Name, val{lean: xn, kd: kBool})
+	} else if l.kd.s == "Nat" {
+		inner.declare(xv.Name, val{lean: xn, kd: kNat})
+	} else if l.kd.s != "String" {
+		inner.declare(xv.Name, val{lean: xn, kd: elemKind, path: fresh("path")})
+		if l.kd.elemNN {
+			ev := inner.vars[xv.Name]
+			inner.bound[ev.path] = xn
+			ev.lean = "(some " + xn + ")"
+			inner.vars[xv.Name] = ev
+		}
+	} else {
+		inner.declare(xv.Name, val{lean: xn, kd: kStr})
+	}
+	if keyName != "" {
+		inner.declare(keyName, selectField(inner.vars[xv.Name], "Key", inner, v.Pos()))
+	}
+	recur := func(e env) string {
+		var args []string
+		e = e.clone()
+		for i, k := range state {
+			x := materialise(e.vars[k], e, v.Pos())
+			a := atom(x.lean)
+			if x0 := e0.vars[k]; x0.kd.k == "ptr" && !x0.kd.nn {
+				b, ok := e.bound[x.path]
+				if !ok {
+					fail(v.Pos(), "loop state %s may be nil at the end of the body", k)
+				}
+				a = atom(b)
+			}
+			_ = i
+			args = append(args, a)
+		}
+		if effName != "" {
+			args = append(args, atom(effsExpr(e)))
+		}
+		ls := takeLets()
+		return wrapLets(ls, "("+goName+" "+rest+" "+strings.Join(args, " ")+")")
+	}
+	loopConts = append(loopConts, recur)
+	body := trStmts(v.Body.List, inner, func(e env) string { return recur(e.pop()) })
+	loopConts = loopConts[:len(loopConts)-1]
+	resTypeStack = resTypeStack[:len(resTypeStack)-1]
+	elemT := leanStruct[l.kd.s]
+	if l.kd.s == "Nat" {
+		elemT = "Nat"
+	}
+	if !l.kd.elemNN && l.kd.s != "String" && l.kd.s != "Bool" && l.kd.s != "Nat" {
+		elemT = "Option " + elemT
+	}
+	if isMap {
+		elemT = leanType(mapKeyKind) + " × " + elemT
+	}
+	sig := "List (" + elemT + ")"
+	for _, t := range types {
+		sig += " → " + atom2(t)
+	}
+	sig += " → " + atom2(retType)
+	pats := strings.Join(binders, ", ")
+	lv := fresh("l")
+	cpats := ""
+	if len(binders) > 0 {
+		cpats = ", " + pats
+	}
+	def := fmt.Sprintf("let rec %s : %s := fun %s %s => (match %s%s with\n| []%s => %s\n| %s :: %s%s => %s)", goName, sig, lv, strings.Join(binders, " "), lv, cpats, cpats, base, xn, rest, cpats, body)
+	// after the loop: a return from inside it is the result of the enclosing code; otherwise go on
+	// with the state it left
+	var outs []string
+	after := e0.clone()
+	for i, k := range state {
+		x := e0.vars[k]
+		on := fresh(lastName(k))
+		outs = append(outs, on)
+		nv := val{lean: on, kd: x.kd, path: fresh("path")}
+		if cur.isState(k) {
+			nv.path = x.path
+		}
+		if x.kd.k == "ptr" && !x.kd.nn {
+			// a pointer to a local struct travelled as its struct value
+			nv.lean = "(some " + on + ")"
+			after.bound[nv.path] = on
+		}
+		after.vars[k] = nv
+		_ = i
+	}
+	if effName != "" {
+		on := fresh("effs")
+		outs = append(outs, on)
+		after.effBase, after.effects = on, nil
+	}
+	outPat := "()"
+	if len(outs) > 0 {
+		outPat = "(" + strings.Join(outs, ", ") + ")"
+	}
+	rv := fresh("ret")
+	cont := next(after)
+	return wrapLets(lets, "("+def+";\n(match "+goName+" "+atom(l.lean)+" "+strings.Join(inits, " ")+" with\n| Sum.inl "+rv+" => "+wrapResult(rv)+"\n| Sum.inr "+outPat+" => "+cont+"))")
+}
+
 
 // rangeSubject: the list a range statement walks: a list, a map, a slice that may be nil, or a
 // literal []bool{..}
@@ -1336,10 +1650,29 @@ func rangeSubject(e ast.Expr, en env) val {
 }
 
 func atom2(s string) string {
-	if strings.ContainsAny(s, " ") && !(strings.HasPrefix(s, "(") && strings.HasSuffix(s, ")")) {
-		return "(" + s + ")"
+	if !strings.ContainsAny(s, " ") {
+		return s
 	}
-	return s
+	// already one parenthesised group?
+	if strings.HasPrefix(s, "(") && strings.HasSuffix(s, ")") {
+		depth := 0
+		single := true
+		for i, c := range s {
+			switch c {
+			case '(':
+				depth++
+			case ')':
+				depth--
+				if depth == 0 && i != len(s)-1 {
+					single = false
+				}
+			}
+		}
+		if single {
+			return s
+		}
+	}
+	return "(" + s + ")"
 }
 
 // trRange: for _, x := range L { body } where the body only updates one accumulator:
@@ -1471,13 +1804,16 @@ func trCall(c *ast.CallExpr, en env) []val {
 			if a.kd.k == "u128" && b.kd.k == "u128" {
 				return []val{{lean: "(equals " + atom(a.lean) + " " + atom(b.lean) + ")", kd: kBool}}
 			}
-		case strings.HasPrefix(sel.Sel.Name, "Get") && len(c.Args) == 0:
+		case strings.HasPrefix(sel.Sel.Name, "Get") && !strings.HasPrefix(sel.Sel.Name, "GetOrCreate") && len(c.Args) == 0:
 			x := trExpr(sel.X, en)
 			if x.kd.k == "ptr" && !x.kd.nn {
 				if _, bound := en.bound[x.path]; !bound && !en.isNil[x.path] {
 					// protobuf getters are nil-safe: a nil receiver yields the zero value
 					fname := strings.TrimPrefix(sel.Sel.Name, "Get")
 					f := fieldOf(x.kd.s, fname, c.Pos())
+					if f.kd.k == "ptr" && f.kd.nn {
+						fail(c.Pos(), "getter %s of a pointer that may be nil returns a pointer the schema declares never nil", sel.Sel.Name)
+					}
 					switch f.kd.k {
 					case "ptr", "oneof":
 						return []val{{lean: "(" + atom(x.lean) + ".bind (fun v => v." + f.lean + "))", kd: f.kd, path: x.path + "." + fname}}
@@ -2308,6 +2644,14 @@ func trAssign(a *ast.AssignStmt, en env) env {
 	if len(a.Lhs) == 2 && len(a.Rhs) == 1 {
 		if ix, ok := a.Rhs[0].(*ast.IndexExpr); ok {
 			p := trExpr(ix, en)
+			if p.kd.k == "bool" {
+				// _, ok := set[k]: presence (every value of the map is true)
+				if id, isId := a.Lhs[0].(*ast.Ident); !isId || id.Name != "_" {
+					fail(a.Pos(), "value of a set element")
+				}
+				bindResult(&en, a.Lhs[1].(*ast.Ident).Name, p, a.Tok == token.DEFINE, a.Pos())
+				return en
+			}
 			okv := val{lean: "(" + atom(p.lean) + ".isSome)", kd: kBool, path: "okof:" + p.path}
 			okPairs[okv.path] = p
 			define := a.Tok == token.DEFINE
@@ -2447,6 +2791,11 @@ func trAssign(a *ast.AssignStmt, en env) env {
 				fail(a.Pos(), "assignment to %s", render(l))
 			}
 			k := trExpr(lv.Index, en)
+			if x.kd.s == "String" {
+				// a Go map has each key once (the set is ranged over later)
+				en.vars[render(lv.X)] = val{lean: "(if " + atom(x.lean) + ".contains " + atom(k.lean) + " then " + atom(x.lean) + " else " + atom(x.lean) + " ++ [" + k.lean + "])", kd: x.kd, path: x.path}
+				break
+			}
 			en.vars[render(lv.X)] = val{lean: "(" + k.lean + " :: " + x.lean + ")", kd: x.kd, path: x.path}
 		default:
 			fail(a.Pos(), "assignment to %s", render(l))
@@ -2526,6 +2875,50 @@ func tryJoin(s ast.Stmt, rest []ast.Stmt, en env, k cont) (out string, ok bool) 
 	}()
 	lets := takeLets()
 	places := loopState([]ast.Stmt{s}, en)
+	// first pass: which pointer-valued places are non-nil on every path that reaches the join
+	nonNil := map[string]bool{}
+	reached := false
+	func() {
+		c0, l0, j0 := counter, loopIndex, joinIndex
+		p0 := append([]string{}, pendingLets...)
+		defer func() {
+			counter, loopIndex, joinIndex = c0, l0, j0
+			pendingLets = p0
+			oracleEffects, pendingEffBase = append([]string{}, savedEffs...), savedEffBase
+			pendingState = map[string]val{}
+			for a, b := range savedState {
+				pendingState[a] = b
+			}
+			delete(inJoinAttempt, s)
+			if r := recover(); r != nil {
+				if _, isT := r.(terr); !isT {
+					panic(r)
+				}
+				reached = false
+			}
+		}()
+		inJoinAttempt[s] = true
+		trStmts([]ast.Stmt{s}, en.clone(), func(e env) string {
+			for _, p := range places {
+				x := e.vars[p]
+				if x.kd.k != "ptr" || x.kd.nn {
+					continue
+				}
+				_, b := e.bound[x.path]
+				if !reached {
+					nonNil[p] = b
+				} else {
+					nonNil[p] = nonNil[p] && b
+				}
+			}
+			reached = true
+			takeLets()
+			return "()"
+		})
+	}()
+	if !reached {
+		return "", false
+	}
 	joinIndex++
 	name := fmt.Sprintf("join%d", joinIndex)
 	var binders, types []string
@@ -2535,7 +2928,11 @@ func tryJoin(s ast.Stmt, rest []ast.Stmt, en env, k cont) (out string, ok bool) 
 		lets = append(lets, takeLets()...)
 		e0.vars[p] = x
 		binders = append(binders, fresh(lastName(p)))
-		types = append(types, atom2(leanType(x.kd)))
+		if nonNil[p] {
+			types = append(types, atom2(leanStruct[x.kd.s]))
+		} else {
+			types = append(types, atom2(leanType(x.kd)))
+		}
 	}
 	effName := ""
 	if cur.effects {
@@ -2552,6 +2949,10 @@ func tryJoin(s ast.Stmt, rest []ast.Stmt, en env, k cont) (out string, ok bool) 
 	for i, p := range places {
 		x := e0.vars[p]
 		nv := val{lean: binders[i], kd: x.kd, path: fresh("path")}
+		if nonNil[p] {
+			restEnv.bound[nv.path] = binders[i]
+			nv.lean = "(some " + binders[i] + ")"
+		}
 		if cur.isState(p) {
 			nv.path = x.path
 			if x.kd.k == "map" {
@@ -2583,6 +2984,14 @@ func tryJoin(s ast.Stmt, rest []ast.Stmt, en env, k cont) (out string, ok bool) 
 		e = e.clone()
 		for _, p := range places {
 			x := materialise(e.vars[p], e, s.Pos())
+			if nonNil[p] {
+				b, ok := e.bound[x.path]
+				if !ok {
+					fail(s.Pos(), "%s may be nil on a path into the join", p)
+				}
+				args = append(args, atom(b))
+				continue
+			}
 			args = append(args, atom(x.lean))
 		}
 		if effName != "" {
@@ -2595,7 +3004,7 @@ func tryJoin(s ast.Stmt, rest []ast.Stmt, en env, k cont) (out string, ok bool) 
 		return wrapLets(ls, "("+name+" "+strings.Join(args, " ")+")")
 	})
 	delete(inJoinAttempt, s)
-	sig := strings.Join(types, " → ") + " → " + atom2(strings.Join(curRetTypes, " × "))
+	sig := strings.Join(types, " → ") + " → " + atom2(currentResultType())
 	def := fmt.Sprintf("let rec %s : %s := fun %s => (%s)", name, sig, strings.Join(binders, " "), tail)
 	return wrapLets(lets, "("+def+";\n"+body+")"), true
 }
@@ -2645,6 +3054,17 @@ func trStmts(list []ast.Stmt, en env, k cont) string {
 					e1.effects = append(e1.effects, "(Eff."+strings.Replace(cur.deleteEff, ":", " ", 1)+")")
 				}
 				return wrapLets(lets, next(e1))
+			}
+			if sel, ok := c.Fun.(*ast.SelectorExpr); ok && sel.Sel.Name == "Add" && len(c.Args) == 1 && cur != nil && cur.isState(render(sel.X)) {
+				// an atomic counter held in the state: x.Add(n)
+				if x := en.vars[render(sel.X)]; x.kd.k == "nat" {
+					n := trExpr(c.Args[0], en)
+					e1 := en.clone()
+					nn := fresh(lastName(render(sel.X)))
+					lets := append(takeLets(), fmt.Sprintf("let %s := %s + %s", nn, atom(x.lean), atom(n.lean)))
+					e1.vars[render(sel.X)] = val{lean: nn, kd: kNat, path: x.path}
+					return wrapLets(lets, next(e1))
+				}
 			}
 			if cur != nil && cur.tbFatal {
 				fn := render(c.Fun)
@@ -2789,6 +3209,9 @@ func trStmts(list []ast.Stmt, en env, k cont) string {
 		return trBlock(v.List, en, next)
 	case *ast.RangeStmt:
 		if needsGeneralLoop(v.Body.List) {
+			if cur != nil && cur.valueLoops {
+				return trLoopV(v, en, next)
+			}
 			return trLoop(v, en, next)
 		}
 		return trRange(v, en, next)
@@ -3132,9 +3555,9 @@ func tbResult(en env, b string) string {
 		parts = append(parts, effsExpr(en))
 	}
 	if len(parts) == 1 {
-		return b
+		return wrapResult(b)
 	}
-	return "(" + strings.Join(parts, ", ") + ")"
+	return wrapResult("(" + strings.Join(parts, ", ") + ")")
 }
 
 func trReturn(r *ast.ReturnStmt, en env) string {
@@ -3196,7 +3619,7 @@ func trReturn(r *ast.ReturnStmt, en env) string {
 	if len(parts) > 1 {
 		out = "(" + strings.Join(parts, ", ") + ")"
 	}
-	return wrapLets(lets, out)
+	return wrapLets(lets, wrapResult(out))
 }
 
 // ---------------------------------------------------------------- driver
@@ -3295,6 +3718,10 @@ func translate(sp *fnSpec, files map[string]*ast.File, srcs map[string][]byte) (
 	counter = 0
 	loopIndex = 0
 	joinIndex = 0
+	// a translation that failed half way must leave nothing behind for the next function
+	resTypeStack = nil
+	loopConts = nil
+	inJoinAttempt = map[ast.Stmt]bool{}
 	en := env{vars: map[string]val{}, bound: map[string]string{}, isNil: map[string]bool{}, closures: map[string]*ast.FuncLit{}, locks: map[string]bool{}}
 	var binders []string
 	// Go parameters, in order, must be the ones the spec lists
@@ -3563,7 +3990,11 @@ func main() {
 				sb.WriteString("import Gribi.Gen." + modName(u) + "\n")
 			}
 		}
-		sb.WriteString("set_option linter.unusedVariables false\nnamespace Gribi.Gen\n\n")
+		sb.WriteString("set_option linter.unusedVariables false\n")
+		if sp.heartbeats > 0 {
+			sb.WriteString(fmt.Sprintf("set_option maxHeartbeats %d\n", sp.heartbeats))
+		}
+		sb.WriteString("namespace Gribi.Gen\n\n")
 		if err != nil {
 			failed[sp.leanName] = true
 			problems = append(problems, err.Error())
